@@ -13,6 +13,8 @@ import (
 	"seehuhn.de/go/sfnt/glyf"
 	"seehuhn.de/go/sfnt/glyph"
 	"seehuhn.de/go/sfnt/maxp"
+	"seehuhn.de/go/sfnt/opentype/classdef"
+	"seehuhn.de/go/sfnt/opentype/gdef"
 	"seehuhn.de/go/sfnt/opentype/gtab"
 
 	"verif/explore"
@@ -434,7 +436,7 @@ func refKern(subs []kernSub, l, r uint16) int {
 
 func c15Kern(r *run.Run) {
 	// a monospaced glyf font (no synthetic GSUB), 4 glyphs, cmap A,B,C
-	base := func() []byte {
+	mkBase := func(withGdef bool) []byte {
 		ol := &glyf.Outlines{Maxp: &maxp.TTFInfo{MaxZones: 2}}
 		for i := 0; i < 4; i++ {
 			ol.Glyphs = append(ol.Glyphs, gen.GlyfShape(1+i%3, i))
@@ -443,22 +445,39 @@ func c15Kern(r *run.Run) {
 		f, _ := FontFromChoices(gen.FontOpts{NoMeta: true, NoLayout: true}, 0, 1, 0, 0, 0)
 		f.Outlines = ol
 		f.InstallCMap(cmap.Format4{'A': 1, 'B': 2, 'C': 3})
+		if withGdef {
+			// glyph 3 ('C') is a mark: it gets no advance of its own, but pairs with it are kerned like any other
+			f.Gdef = &gdef.Table{GlyphClass: classdef.Table{1: gdef.GlyphClassBase, 2: gdef.GlyphClassBase, 3: gdef.GlyphClassMark}}
+		}
 		b, err := writeFont(f)
 		if err != nil {
 			explore.Fatal("C15 kern base font: %v", err)
 		}
 		return b
-	}()
+	}
+	base, baseGdef := mkBase(false), mkBase(true)
 	covs := []byte{0x01, 0x03, 0x09, 0x00, 0x05}
 	covNames := []string{"horizontal", "horizontal+minimum", "horizontal+override", "vertical", "horizontal+cross-stream"}
 	vals := []int16{-50, 0, 30}
 	pairKeys := [][2]uint16{{1, 2}, {2, 1}, {1, 1}}
 	r.Explore(explore.Config{Name: "C15.kern"},
-		"fonts carrying only a legacy kern table: 1..2 format-0 subtables x coverage flags {horizontal, +minimum, +override, vertical, +cross-stream} x all assignments of {absent,-50,0,30} to 3 glyph pairs: every pair of the laid-out string is adjusted by exactly the value the kern specification defines",
+		"fonts carrying only a legacy kern table: 1..2 format-0 subtables x coverage flags {horizontal, +minimum, +override, vertical, +cross-stream} x all assignments of {absent,-50,0,30} to 3 glyph pairs: every pair of the laid-out string is adjusted by exactly the value the kern specification defines; the same with a GDEF table that makes one glyph a mark (pairs around and between marks are kerned like any other)",
 		func(c *explore.Ctx) {
+			withGdef := c.Bool("GDEF with a mark glyph")
 			ns := 1 + c.Choose(2, "subtables")
 			var subs []kernSub
 			var desc []string
+			file0 := base
+			strs := []string{"AB", "BA", "AA", "ABA", "AC", "BAAB"}
+			if withGdef {
+				// one subtable with pairs around the mark glyph C
+				file0, ns = baseGdef, 0
+				ci := c.Choose(len(covs), "coverage")
+				s := kernSub{coverage: covs[ci], pairs: map[[2]uint16]int16{{1, 3}: -50, {3, 2}: 30, {1, 2}: -20, {3, 3}: 7}}
+				subs = append(subs, s)
+				desc = append(desc, fmt.Sprintf("GDEF marks C; %s %v", covNames[ci], s.pairs))
+				strs = []string{"AC", "CB", "ACB", "AB", "CAB", "ACCB", "C"}
+			}
 			for i := 0; i < ns; i++ {
 				ci := c.Choose(len(covs), "coverage")
 				s := kernSub{coverage: covs[ci], pairs: map[[2]uint16]int16{}}
@@ -471,7 +490,7 @@ func c15Kern(r *run.Run) {
 				desc = append(desc, fmt.Sprintf("%s %v", covNames[ci], s.pairs))
 			}
 			c.Sample(func() any { return desc })
-			file := addTable(base, "kern", kernTable(subs))
+			file := addTable(file0, "kern", kernTable(subs))
 			f, err := sfnt.Read(bytes.NewReader(file))
 			if err != nil {
 				c.Fail("C15.kern", "Read", "font with a kern table rejected: %v (%v)", err, desc)
@@ -484,7 +503,7 @@ func c15Kern(r *run.Run) {
 				return
 			}
 			c.Nontrivial()
-			for _, s := range []string{"AB", "BA", "AA", "ABA", "AC", "BAAB"} {
+			for _, s := range strs {
 				got := lay.Layout(s)
 				rs := []rune(s)
 				if len(got) != len(rs) {
@@ -493,6 +512,9 @@ func c15Kern(r *run.Run) {
 				}
 				for i := range rs {
 					want := 600
+					if withGdef && rs[i] == 'C' {
+						want = 0 // a mark glyph gets no advance width
+					}
 					if i+1 < len(rs) {
 						want += refKern(subs, uint16(rs[i]-'A'+1), uint16(rs[i+1]-'A'+1))
 					}
